@@ -93,6 +93,12 @@ def run_job(job):
             cols = list(keys)
             for fn in fns:
                 cols.append("%s(%s)" % (fn, "*" if fn == "count" and rng.random() < 0.5 else inner))
+            # an arithmetic column over aggregates (`max(size) - min(size)`): computed over the group's rows like its operands
+            arith = rng.choice([None, None, ("max(%s) - min(%s)" % (inner, inner), lambda v: max(v) - min(v)),
+                                ("sum(%s) / count(*)" % inner, lambda v: sum(v) / len(v)), ("count(*) * 2 + min(%s)" % inner, lambda v: len(v) * 2 + min(v)),
+                                ("max(%s) mod 7" % inner, lambda v: max(v) % 7)])
+            if arith:
+                cols.append(arith[0])
             order = ""
             okey = None
             if rng.random() < 0.5:
@@ -139,6 +145,17 @@ def run_job(job):
                         break
                 if bad:
                     break
+                if arith:
+                    want = arith[1](vals)
+                    try:
+                        good = abs(float(row[-1]) - want) <= 1e-9 * max(1.0, abs(want))
+                    except ValueError:
+                        good = False
+                    if not good:
+                        res.viol("group %s: %s printed %r, its value over the group's %d rows is %s" % (row[:len(keys)], arith[0], row[-1], len(vals), want), ctx)
+                        bad = True
+                        break
+                    res.count("arithmetic_over_aggregates_checked")
             if bad:
                 continue
             # conservation against the ungrouped aggregate query
@@ -182,8 +199,8 @@ def run_job(job):
                                 res.viol("`%s`: status %s stderr %r" % (qr, ra.rc, ra.err[:120]), ctx)
                                 continue
                             cells = ra.rows()
-                            if len(cells) != len(fns):
-                                res.viol("`%s`: %d cells for %d aggregates" % (qr, len(cells), len(fns)), ctx)
+                            if len(cells) != len(cols) - len(keys):
+                                res.viol("`%s`: %d cells for %d aggregates" % (qr, len(cells), len(cols) - len(keys)), ctx)
                                 continue
                             def differ(a, b):
                                 if a == b:
